@@ -35,12 +35,13 @@ def rule_row_protocol(ctx):
 
 
 def rule_run_protocol(ctx):
-    ctx.res.minimum("O20.run", 6)
+    ctx.res.minimum("O20.run", 7)
     protocol.reader_rows_table(ctx, "O20.run", {"reset", "window"}, "Reader.rows")
     protocol.reader_rows_table(ctx, "O20.run", {"reset", "window"}, "rows()")
     protocol.reader_rows_table(ctx, "O20.run", {"reset", "window"}, "validate()")
     protocol.close_table(ctx, "O20.run")
     protocol.writer_table(ctx, "O20.run", {"reset"}, "delimited")
+    protocol.writer_table(ctx, "O20.run", {"reset"}, "fixed")
     # every operation on a shared CID (incl. readers that never start, readers created up front) resets before use
     protocol.history_table(ctx, "O20.run", 2)
 
